@@ -127,6 +127,12 @@ class Node(object):
             self.n += 1
             h = str(self.n)
             self.held[h] = v
+            for _ in range(p["item"].get("inmem_first", 0)):
+                # history on the same value: in-memory round trip first (its own outcome is not judged here)
+                try:
+                    self.CD.from_json_data(v.to_json_data())
+                except Exception:
+                    pass
             try:
                 doc = v.to_json_data()
             except Exception as e:
@@ -135,7 +141,11 @@ class Node(object):
                 code_digest = fp.digest(fp.code_fp(v.to_code()))
             except Exception as e:
                 code_digest = "raise:" + type(e).__name__
-            out["D" + tag] = doc_to_wire(doc)
+            try:
+                out["D" + tag] = doc_to_wire(doc)
+            except (TypeError, ValueError) as e:
+                # json.dumps refuses it: something in the document is not a dict/list/str/int/float/bool/None
+                return {"ok": False, "why": "document-not-plain-json:" + type(e).__name__ + ":" + str(e)[:100]}
             out["handle" + tag] = h
             out["fp_data" + tag] = fp.digest(fp.data_fp(v))
             out["fp_code" + tag] = code_digest
@@ -373,11 +383,20 @@ def serve(job, tree):
     sys.stdout = sys.stderr  # nothing but RPC responses on the real stdout
     out.write("@@READY@@\n")
     out.flush()
-    for line in sys.stdin:
-        line = line.strip()
-        if not line:
+    # length-prefixed frames read from the BINARY stream: one allocation of exactly the frame's size, whatever
+    # chunks the pipe delivers it in (text-mode line iteration allocates per chunk, i.e. per timing, and heap
+    # addresses - which identity-keyed state in the code under test may depend on - would no longer replay)
+    inp = sys.stdin.buffer
+    while True:
+        head = inp.readline()
+        if not head:
+            break
+        head = head.strip()
+        if not head:
             continue
-        req = json.loads(line)
+        raw = inp.read(int(head))
+        req = json.loads(raw.decode("utf-8"))
+        del raw
         if req["m"] == "quit":
             break
         try:
